@@ -424,9 +424,11 @@ fn check_accepted(ctx: &mut Ctx, entry: &str, d: &ArrayData, tclass: &str, mutat
     match guard(|| spec_validate(d)) {
         Ok(Ok(())) => {}
         Ok(Err(e)) => {
-            let rule = crate::mon::strip_digits(&e);
+            // key = first clause of the innermost validator message (type prefixes
+            // stripped first, then digits)
+            let rule = crate::mon::strip_digits(&rule_key(&e));
             ctx.violation(
-                &format!("C09|{entry}|accepted-malformed|{}", rule_key(&rule)),
+                &format!("C09|{entry}|accepted-malformed|{rule}"),
                 format!("{entry} accepted a layout the format validator rejects\nmutation: {mutation}\nvalidator: {e}\n{}", detail()),
             );
             return;
@@ -588,7 +590,7 @@ fn typed_constructors(ctx: &mut Ctx, p: &Parts, mutation: &str, detail: &dyn Fn(
         let n = a.len();
         if let Ok(Ok(b)) = guard(|| RecordBatch::try_new(schema.clone(), vec![a.clone()])) {
             if let Err(e) = crate::validate::check_batch(&b) {
-                ctx.violation(&format!("C09|RecordBatch::try_new|accepted-malformed|{}", rule_key(&e)), format!("{e}\nmutation: {mutation}\n{}", detail()));
+                ctx.violation(&format!("C09|RecordBatch::try_new|accepted-malformed|{}", crate::mon::strip_digits(&rule_key(&e))), format!("{e}\nmutation: {mutation}\n{}", detail()));
             }
         }
         // wrong row count must be rejected
